@@ -19,6 +19,7 @@ import json
 import os
 import random
 
+from .chooser import derive_seed
 from .progs import render_script
 
 __all__ = (
@@ -160,6 +161,8 @@ def gen_project(rng: random.Random, feats, size=None) -> dict:
             # makes buildability legitimately history-dependent.
             if verb == "write":
                 avail.append(arg)
+    if "amend_pre" in feats:
+        _mix_tree_amends(proj)
     _assign_statics(rng, proj)
     if "globs" in feats and rng.random() < 0.7:
         _gen_glob(rng, proj, feats, namer)
@@ -339,6 +342,8 @@ def _compact_token(verb, arg, wd):
         return f"r={_rel(arg, wd)}"
     if verb == "aread":
         return f"a={_rel(arg, wd)}"
+    if verb == "areadt":
+        return "at=" + "::".join(_rel(q, wd) for q in arg.split("::"))
     if verb == "reada":
         return f"la={_rel(arg, wd)}"
     if verb in ("write", "vol"):
@@ -362,7 +367,9 @@ def _script_ops(st):
     wd = st["wd"]
     ops = []
     for verb, arg in st["acts"]:
-        if verb in ("read", "aread", "reada", "awrite", "vwrite"):
+        if verb == "areadt":
+            ops.append([verb, *(_rel(q, wd) for q in arg.split("::"))])
+        elif verb in ("read", "aread", "reada", "awrite", "vwrite"):
             ops.append([verb, _rel(arg, wd)])
         elif verb in ("write", "vol"):
             ops.append(["write", _rel(arg, wd)])
@@ -466,13 +473,41 @@ def render(proj) -> dict:
 # ---------------------------------------------------------------------------------------------
 
 
+def read_paths(verb, arg):
+    """The paths that an act reads (an `areadt` act names two in one amend call)."""
+    if verb in ("read", "aread", "reada"):
+        return [arg]
+    if verb == "areadt":
+        return arg.split("::")
+    return []
+
+
+def _mix_tree_amends(proj):
+    """Turn some `aread` acts into `areadt`: ONE amend() call that names the input and a file
+    of a static tree as well.  The director then has to confirm the tree file (a hash job,
+    a second transaction) while the other path of the same call may be unavailable, and the
+    two answers have to be combined.  Drawn from a stream of its own, so that the rest of
+    the project does not depend on it."""
+    tree_files = sorted(s for s in proj["sources"] if any(s.startswith(t) for t in proj["trees"]))
+    if not tree_files:
+        return
+    prng = random.Random(derive_seed("areadt", proj["uid"], len(proj["steps"]), tree_files[0]))
+    if prng.random() < 0.5:
+        return
+    for st in proj["steps"]:
+        for act in st["acts"]:
+            if act[0] == "aread" and act[1] not in tree_files and prng.random() < 0.6:
+                act[0] = "areadt"
+                act[1] = f"{act[1]}::{prng.choice(tree_files)}"
+
+
 def consumers_of(proj, paths):
     """Names of steps reading any of `paths` (declared, amended or late)."""
     paths = set(paths)
     out = []
     for st in proj["steps"]:
         for verb, arg in st["acts"]:
-            if verb in ("read", "aread", "reada") and arg in paths:
+            if any(q in paths for q in read_paths(verb, arg)):
                 out.append(st["name"])
                 break
     return out
@@ -661,10 +696,10 @@ def mutate(rng: random.Random, proj: dict, feats, stash: list, masks=frozenset()
             del p["sources"][k]
             desc = f"glob_del {k}"
     elif op == "drop_input":
-        cand = [s_ for s_ in p["steps"] if s_["script"] and any(a[0] in ("read", "aread", "reada") for a in s_["acts"])]
+        cand = [s_ for s_ in p["steps"] if s_["script"] and any(a[0] in ("read", "aread", "reada", "areadt") for a in s_["acts"])]
         if cand:
             st = rng.choice(cand)
-            idx = [k for k, a in enumerate(st["acts"]) if a[0] in ("read", "aread", "reada")]
+            idx = [k for k, a in enumerate(st["acts"]) if a[0] in ("read", "aread", "reada", "areadt")]
             k = rng.choice(idx)
             gone = st["acts"].pop(k)
             desc = f"drop_input {st['name']} {gone}"
@@ -707,7 +742,7 @@ def _can_add(p, st):
     if st["plan"] not in {q["name"] for q in p["plans"]}:
         return False
     for verb, arg in st["acts"]:
-        if verb in ("read", "aread", "reada") and arg not in have:
+        if any(q not in have for q in read_paths(verb, arg)):
             return False
         if verb in ("write", "awrite", "vol", "vwrite") and (arg in outs or arg in vols):
             return False
